@@ -38,7 +38,7 @@ def reference(survey, model):
 
 
 OPS = ['compute', 'misfit', 'gradient', 'jtvec', 'get_efield', 'get_hfield', 'clean_computed', 'clean_keepresults', 'clean_all', 'copy',
-       'dict', 'model_update', 'file_h5']
+       'dict', 'model_update', 'file_h5', 'file_npz', 'file_json']
 
 
 def apply(sim, op, state, rng):
@@ -65,12 +65,12 @@ def apply(sim, op, state, rng):
         sim = sim.copy(what=['computed', 'all', 'results', 'plain'][int(rng.integers(4))])
     elif op == 'dict':
         sim = emg3d.Simulation.from_dict(sim.to_dict(what='computed', copy=True))
-    elif op == 'file_h5':
+    elif op in ('file_h5', 'file_npz', 'file_json'):
         import os
         import tempfile
         td = tempfile.mkdtemp(prefix='c12_')
         try:
-            fn = os.path.join(td, 'sim.h5')
+            fn = os.path.join(td, 'sim.' + op[5:])
             sim.to_file(fn, what='computed', verb=0)
             sim = emg3d.Simulation.from_file(fn, verb=0)
         finally:
@@ -87,8 +87,8 @@ def check(tier='quick', seed=0):
     survey, models = setup(seed)
     refs = [reference(survey, m) for m in models]
     rng = np.random.default_rng(seed + 17)
-    nseq, maxlen = (16, 5) if tier == 'quick' else (80, 8)
-    fixed = [['gradient', 'clean_keepresults', 'model_update'], ['gradient', 'copy_results', 'model_update'], ['compute', 'file_h5', 'gradient'], ['misfit', 'file_h5', 'clean_computed', 'misfit'], ['get_efield', 'misfit', 'gradient'], ['misfit', 'jtvec', 'gradient'], ['gradient', 'clean_computed', 'compute'], ['misfit', 'clean_keepresults', 'gradient'],
+    nseq, maxlen = (19, 5) if tier == 'quick' else (83, 8)
+    fixed = [['misfit', 'file_h5'], ['gradient', 'file_npz'], ['misfit', 'file_json', 'gradient'], ['gradient', 'clean_keepresults', 'model_update'], ['gradient', 'copy_results', 'model_update'], ['compute', 'file_h5', 'gradient'], ['misfit', 'file_h5', 'clean_computed', 'misfit'], ['get_efield', 'misfit', 'gradient'], ['misfit', 'jtvec', 'gradient'], ['gradient', 'clean_computed', 'compute'], ['misfit', 'clean_keepresults', 'gradient'],
              ['gradient', 'model_update', 'compute'], ['gradient', 'copy', 'model_update'], ['compute', 'misfit', 'gradient', 'clean_computed', 'get_efield']]
     cases = 0
     for k in range(nseq):
